@@ -8,7 +8,7 @@ Spec builtins available in both semantics (logical: pyvc.lib; executable:
 runner.specrt): exp2, log2, trunc, ceil, floor, isnull, lower, forall, exists,
 implies, ite, let, old.
 """
-from .dsl import spec
+from .dsl import spec, const
 try:                                     # executable semantics
     from runner.specrt import *          # noqa
 except Exception:                        # pyvc only parses this file's AST
@@ -62,6 +62,32 @@ def Xcopies(cls, ploidy, female):
     return (ploidy if (cls == 0 or cls == 3)
             else ((ploidy if female else ploidy // 2) if cls == 1
                   else ((0 if female else ploidy // 2) if cls == 2 else 0)))
+
+
+# PAR coordinates of the two supported builds (GRC definitions, 0-based as the package uses them); written here
+# independently of cnvlib/params.py so that a change there is noticed
+PAR = const("PAR", {
+    "grch37": {"PAR1X": (60000, 2699520), "PAR2X": (154931043, 155260560),
+               "PAR1Y": (10000, 2649520), "PAR2Y": (59034049, 59363566)},
+    "grch38": {"PAR1X": (10000, 2781479), "PAR2X": (155701382, 156030895),
+               "PAR1Y": (10000, 2781479), "PAR2Y": (56887902, 57217415)},
+})
+
+
+@spec
+def par_of(build):
+    return None if build is None else PAR[lower(build)]
+
+
+@spec
+def xlabel_of(first_chrom):
+    """naming style of the table: 'chrX'/'chrY' when its first chromosome name starts with 'chr'"""
+    return "chrX" if startswith(first_chrom, "chr") else "X"
+
+
+@spec
+def ylabel_of(first_chrom):
+    return "chrY" if startswith(first_chrom, "chr") else "Y"
 
 
 # ----------------------------------------------------------------------------- C02 step function
